@@ -19,10 +19,16 @@ def val_ok(model_v, impl_v):
     return type(model_v) is type(impl_v) and model_v == impl_v
 
 
+def may_be_absent(model_v):
+    # an undetermined outcome one of whose candidates is "excluded, falls back to the default": a field without a
+    # default is then simply absent
+    return isinstance(model_v, tuple) and model_v and model_v[0] == 'one-of' and any(c == ('default',) for c in model_v[1])
+
+
 def view_eq(model, impl, loose=()):
-    if set(model) != set(impl):
+    if not set(impl) <= set(model) or any(k not in impl and not may_be_absent(model[k]) for k in model):
         return False
-    return all(val_ok(model[k], impl[k]) for k in model)
+    return all(val_ok(model[k], impl[k]) for k in impl)
 
 
 def undetermined(m):
